@@ -21,7 +21,8 @@ TRUSTED = [
     "Tie B: assembler tracing (vlib/asmtrace.py, props/asm_gen.py) and kernel tracing (props/kernels_gen.py)",
     "Tie A: props/sing_gen.py (offset table, remap order), props/c12_gen.py (quadrature tables)",
     "hand model Model/Asm.lean + Model/Sing.lean, tied to the source by the generated AsmMatch theorems (symbolic, one generic "
-    "configuration) and by differential comparison of the singular index/offset vectors (driver)",
+    "configuration), by differential comparison of the singular index/offset vectors, and by comparing the REAL assembled "
+    "dense matrix (polynomial kernel injected) with the model evaluated in exact rational arithmetic (driver asmdense)",
     "classical analysis not formalised: Calderón identities, convergence of Gauss / Sauter-Schwab quadrature",
 ]
 ASSUMPTIONS = ["NoDupElems: two distinct elements never have the same three vertices",
@@ -77,6 +78,7 @@ def _cases(ctx):
 def correspondence(ctx):
     res = Result()
     shared.sing_pairs_correspondence(ctx, res, _cases(ctx))
+    res.merge(shared.trace_validation(ctx, PID))
     return res
 
 
